@@ -561,7 +561,8 @@ func object(p *Parser) (Expr, error) {
 		if err != nil {
 			return nil, err
 		}
-		key := p.lexer.GetString(p.previous)
+		keyToken := *p.previous
+		key := p.lexer.GetString(&keyToken)
 		if err = p.consume(Colon); err != nil {
 			return nil, err
 		}
@@ -569,7 +570,7 @@ func object(p *Parser) (Expr, error) {
 		if err != nil {
 			return nil, err
 		}
-		items = append(items, ObjectKeyValue{key, value})
+		items = append(items, ObjectKeyValue{key, keyToken, value})
 
 		if p.current.Tag == Comma {
 			if err = p.consume(Comma); err != nil {
